@@ -95,6 +95,21 @@ func newEvent(eventType string, ts time.Time, payload interface{}) (Event, error
 	return Event{Type: eventType, TS: formatTime(ts), Data: data}, nil
 }
 
+// takenIDs returns every id a new item must not reuse: live items and pruned ids
+// (a tombstoned id makes replay ignore any later create event for it).
+func takenIDs(graph *Graph) map[string]*Task {
+	taken := make(map[string]*Task, len(graph.Tasks)+len(graph.Tombstones))
+	for id, task := range graph.Tasks {
+		taken[id] = task
+	}
+	for id := range graph.Tombstones {
+		if _, live := taken[id]; !live {
+			taken[id] = nil
+		}
+	}
+	return taken
+}
+
 func newShortID(existing map[string]*Task) (string, error) {
 	const maxAttempts = 64
 	for i := 0; i < maxAttempts; i++ {
